@@ -379,7 +379,7 @@ def model_request(case):
         req["stop_after"] = case["stop_after"]
     if case["kind"] == "count" and not case.get("per_shot"):
         sk = [e[1] if e[0] == "msg" else "checkpoint:" for e in one_shot_skeleton(case["ndet"])]
-        req["inner"] = [sk] * 40
+        req["inner"] = [sk] * 9
     else:
         req["inner"] = [[f"{i}:{j}" for j in range(n)] for i, n in enumerate(case["inner"])]
     return req
@@ -534,7 +534,7 @@ def oracle(case, obs, log):
 DY = [[0, 1], [1, 8], [1, 4], [1, 2], [1, 1], [3, 2], [2, 1], [5, 1]]
 
 
-def gen_clock(rng, n=40):
+def gen_clock(rng, n=18):
     t = Fraction(rng.choice([0, 1, 100, 1 << 20]))
     out = []
     for _ in range(n):
@@ -600,7 +600,7 @@ def exhaustive_cases(big):
             for st in steps:
                 t = Fraction(0)
                 clock = []
-                for k in range(24):
+                for k in range(12):
                     clock.append([t.numerator, t.denominator])
                     t += Fraction(*st[k % 2])
                 case = {"kind": "repeat", "num": num, "delay": spec, "clock": clock, "inner": [1] * 12, "form": "float", "inner_form": "gen"}
@@ -615,7 +615,7 @@ def _cases(ctx):
         for f in sorted(corpus.glob("*.json")):
             yield json.loads(f.read_text())["case"]
     yield from exhaustive_cases(ctx.tier == "thorough" or ctx.deep)
-    for _ in range(ctx.budget(3000, 60000)):
+    for _ in range(ctx.budget(1500, 40000)):
         yield gen_case(ctx.rng)
 
 
